@@ -38,6 +38,8 @@ Docs == <<
   [items |-> <<F(1,0,1), BL, BL, BL, H(1), H(2), H(3), F(2,0,1)>>, term |-> TRUE, origins |-> {"parsed"}],
   \* a framed comment block ("#" / text / "#") right after the blank line that follows a paragraph
   [items |-> <<F(1,0,1), BL, H(2), H(1), H(2), F(2,0,1)>>, term |-> TRUE, origins |-> {"parsed"}],
+  \* an EMPTY value in front of a multi-line one (parsed, and built from pairs by each constructor)
+  [items |-> <<F(1,0,0), F(2,0,2), C(0,3)>>, term |-> TRUE, origins |-> {"parsed", "built", "para_built"}],
   \* a BIG document (four paragraphs, up to four fields): one step from it, at every paragraph and index
   [items |-> <<F(1,0,1), F(2,0,2), F(3,0,1), BL, F(1,0,3), H(1), F(2,0,1), BL, F(2,0,2), BL, F(1,0,1), F(3,0,2), F(2,0,3), C(0,3), F(1,0,2)>>, term |-> TRUE, origins |-> {"parsed"}]
 >>
